@@ -51,6 +51,18 @@ func pathHasPrefix(p, prefix []ref.PathElem) bool {
 	return true
 }
 
+func sameKindContainers(x, y val.V) bool {
+	switch x.(type) {
+	case []val.V:
+		_, ok := y.([]val.V)
+		return ok
+	case map[string]val.V:
+		_, ok := y.(map[string]val.V)
+		return ok
+	}
+	return false
+}
+
 func isScalar(v val.V) bool {
 	switch v.(type) {
 	case []val.V, map[string]val.V:
@@ -142,6 +154,25 @@ func checkC06(c C06Case, r *rec.Rec) error {
 			return rec.Violated("not minimal: removes %d adds %d, optimum removes %d adds %d (LCS %d)", sumRemove, sumAdd, len(aArr)-lcs, len(bArr)-lcs, lcs)
 		}
 	}
+	if lcs == 0 {
+		// Nothing of a occurs in b, so whatever alignment the LCS picks the
+		// walk is positional: a[i] faces b[i]. Same-position containers of the
+		// same kind must be recursed into, everything else is replaced.
+		wantRemove, wantAdd := 0, 0
+		for i := range aArr {
+			if i >= len(bArr) || !sameKindContainers(aArr[i], bArr[i]) {
+				wantRemove++
+			}
+		}
+		for i := range bArr {
+			if i >= len(aArr) || !sameKindContainers(aArr[i], bArr[i]) {
+				wantAdd++
+			}
+		}
+		if sumRemove != wantRemove || sumAdd != wantAdd {
+			return rec.Violated("same-position containers of the same kind are replaced instead of recursed into: the array hunks remove %d and add %d elements, positional pairing needs %d and %d\ndiff:\n%s", sumRemove, sumAdd, wantRemove, wantAdd, d.Render())
+		}
+	}
 	if c.Focus != nil {
 		// Same array, one container changed inside: recursion, no replacement.
 		if len(hs) == 0 {
@@ -188,6 +219,16 @@ func checkC06(c C06Case, r *rec.Rec) error {
 	}
 	if c.Focus != nil {
 		cls = append(cls, "inner-change")
+	}
+	if lcs == 0 && len(aArr) > 0 && len(bArr) > 0 {
+		cls = append(cls, "nothing-common(positional)")
+		for i := range aArr {
+			if i < len(bArr) && sameKindContainers(aArr[i], bArr[i]) {
+				cls = append(cls, "positional-with-same-kind-pair")
+				nontrivial = true
+				break
+			}
+		}
 	}
 	if outer > 0 && len(hs) > outer {
 		cls = append(cls, "outer+inner-hunks")
@@ -250,7 +291,30 @@ func TestC06Exhaustive(t *testing.T) {
 
 func genC06(t *rapid.T) C06Case {
 	wrap := gen.Pick(t, "wrap", []string{"", "key", "index", "deep"})
-	mode := gen.Int(t, "mode", 0, 2)
+	mode := gen.Int(t, "mode", 0, 3)
+	if mode == 3 {
+		// disjoint sides: every element of a carries "A", every element of b "B"
+		side := func(tag string) []val.V {
+			n := gen.Int(t, "n"+tag, 0, 6)
+			out := make([]val.V, n)
+			for i := range out {
+				switch gen.Int(t, "kind"+tag, 0, 2) {
+				case 0:
+					out[i] = tag + fmt.Sprint(gen.Int(t, "s", 0, 2))
+				case 1:
+					out[i] = map[string]val.V{"side": tag, "x": float64(gen.Int(t, "x", 0, 2)), gen.Pick(t, "k", []string{"p", "q"}): float64(gen.Int(t, "y", 0, 1))}
+				default:
+					l := []val.V{tag}
+					for k := gen.Int(t, "len", 0, 3); k > 0; k-- {
+						l = append(l, float64(gen.Int(t, "e", 0, 2)))
+					}
+					out[i] = l
+				}
+			}
+			return out
+		}
+		return C06Case{A: val.JSON(side("A")), B: val.JSON(side("B")), Wrap: wrap}
+	}
 	switch mode {
 	case 0: // long scalar arrays over small alphabets
 		alpha := gen.Int(t, "alpha", 2, 6)
